@@ -1609,6 +1609,9 @@ fire("c18-trace-record-mixes-raw-positionals-with-bound-kwargs", "C18", OP,
 silent("c18-s-trace-record-from-bound-arguments-directly", "C18", OP,
        "                op = cls(*args[cls.arity :], **kwargs)\n", "                op = cls(*bound.args[cls.arity :], **bound.kwargs)\n")
 
+fire("c11-scatter-drops-reduced-batch-inputs-without-reducing", "C11", TENSOR_,
+     "    if plain_vars:\n        source = source.reduce(op, plain_vars)\n        reduced_vars = reduced_vars - plain_vars\n", "", "R11.17", "eager_scatter_tensor")
+
 # ===== derived variants: must stay at the END of this file (they enumerate every rename() variant above) =====
 # `if c: A else: B` -> `if not c: B else: A` in the anchor functions (behaviour-preserving)
 def invert(prop, file, qual):
